@@ -32,6 +32,7 @@ type multicastProxy struct {
 	udpConn  *net.UDPConn
 	destAddr [rtpChannelCount]*net.UDPAddr
 	cid      media.CID
+	source   *media.Stream // 被消费的流：路径可能被新的流重新注册，停止消费时不能再按路径查找
 
 	multicastLock sync.Mutex
 	members       []io.Closer
@@ -64,6 +65,7 @@ func (proxy *multicastProxy) AddMember(m io.Closer) {
 			}
 		}
 
+		proxy.source = stream
 		proxy.cid = stream.StartConsume(proxy, media.RTPPacket,
 			"net = rtsp-multicast, "+proxy.multicastIP)
 		proxy.closed = false
@@ -149,9 +151,9 @@ func (proxy *multicastProxy) close() {
 	}
 	proxy.closed = true
 
-	stream := media.Get(proxy.path)
-	if stream != nil {
-		stream.StopConsume(proxy.cid)
+	if proxy.source != nil {
+		proxy.source.StopConsume(proxy.cid)
+		proxy.source = nil
 	}
 
 	if proxy.udpConn != nil {
